@@ -1222,7 +1222,9 @@ def run_c10(chk):
                 # (canonical paths name an attribute with its prefix: compare modulo the renamed prefixes)
                 import re as _re
                 unpre = lambda v: _re.sub(r"/@[A-Za-z0-9_.-]+%3A", "/@", v) if v.startswith("N:") else v
-                if unpre(frd[i]) != unpre(x):
+                # name() shows the document's own prefix: a generated predicate using it may legitimately change with the renaming
+                shows_prefix = _re.search(r"(?<![A-Za-z-])name\(", e) is not None
+                if not shows_prefix and unpre(frd[i]) != unpre(x):
                     mfail.append((t, e, "result changes when the document's prefixes are renamed consistently (p->pp, q->qq, z->w)",
                                   x + "  /  " + frd[i]))
                 if fre[i] != x:
